@@ -24,7 +24,9 @@ PubId(id) == IF id = LO THEN LowOrder(1) ELSE PubOf(Sym(id))
 Other == Write(Prologue, Priv("S2"), PubId("S2"), Priv("E2"), PubId("E2"), PubId("R"), Sym("PK2"))
 
 Msg(sc) ==
-  LET w == Write(Prologue, Priv(sc.sPriv), PubId(sc.sClaim), Priv(sc.ePriv), PubId(sc.eClaim), PubId(sc.rs), Sym("PK"))
+  LET w == IF sc.forge = "none"
+           THEN Write(Prologue, Priv(sc.sPriv), PubId(sc.sClaim), Priv(sc.ePriv), PubId(sc.eClaim), PubId(sc.rs), Sym("PK"))
+           ELSE WriteForged(Prologue, Priv(sc.sPriv), PubId(sc.sClaim), Priv(sc.ePriv), PubId(sc.eClaim), PubId(sc.rs), Sym("PK"), sc.forge)
   IN IF ~w.ok THEN w
      ELSE CASE sc.splice = "none" -> w
             [] sc.splice = "e"    -> [w EXCEPT !.e = Other.e]
@@ -41,6 +43,7 @@ Verdict(sc) ==
 
 DevStaticKeyInClear == "StaticKeyInClear"
 DevSkipSS == "SkipSS"
+DevReaderIgnoresSsFailure == "ReaderIgnoresSsFailure"
 DevIgnoreDhZero == "IgnoreDhZero"
 
 VARIABLES sc, phase
@@ -52,10 +55,10 @@ V == Verdict(sc)
 Refused      == C05Class(sc) = "refused" => ~V.wrote
 NoNullKey    == (sc.rs = LO \/ sc.eClaim = LO \/ sc.sClaim = LO) => ~V.ok
 OnlyAddressed == V.ok => (sc.rs = sc.rPriv /\ sc.rParam = sc.rPriv)
-SenderAuthentic == V.ok => (Eq(V.sender, PubOf(Priv(sc.sPriv))) /\ V.payload = Sym("PK") /\ V.hhAgree)
+SenderAuthentic == V.ok => (sc.forge = "none" /\ Eq(V.sender, PubOf(Priv(sc.sPriv))) /\ V.payload = Sym("PK") /\ V.hhAgree)
 RespectsClass == /\ C05Class(sc) = "must_reject" => ~V.ok
                  /\ C05Class(sc) = "must_accept" => V.ok
-                 /\ C05Class(sc) # "refused" => V.wrote
+                 /\ (C05Class(sc) # "refused" /\ sc.forge = "none") => V.wrote
 
 \* C08: nothing that is sent outside an AEAD mentions a static key (private or public) of
 \* either party, and the cleartext fields do not depend on who the parties are.
@@ -67,7 +70,7 @@ NoIdentityInClear ==
 ClearIndependentOfIdentity ==
   LET m == Msg(sc)
       m2 == Msg([sc EXCEPT !.sPriv = "A", !.sClaim = "A", !.rs = IF sc.rs = "R" THEN "R2" ELSE "R"])
-  IN (m.ok /\ m2.ok /\ sc.rs # LO) => ClearFields(m) = ClearFields(m2)
+  IN (m.ok /\ m2.ok /\ sc.rs # LO /\ sc.forge = "none") => ClearFields(m) = ClearFields(m2)
 
 Emit == phase = "done" =>
   PrintT(<<"REPLAY", ToJson([sc |-> sc, class |-> C05Class(sc), model |-> [wrote |-> V.wrote, ok |-> V.ok]])>>)
